@@ -95,7 +95,7 @@ def check(case: dict):
     try:
         ref_ds = MazeDataset.generate(cfg)
     except ValueError as e:
-        raise Discard() from e
+        core.discard_if_unsatisfiable(e, "C04:generate")
     ref = _structs(ref_ds)
     require(len(ref) == spec["n_mazes"], "C04:generate:length", f"{len(ref)} mazes for n_mazes={spec['n_mazes']}")
     apply_history(case["history"])
